@@ -232,8 +232,10 @@ func runC08(c *Ctx) {
 			var head *ssa.BasicBlock
 			for _, b := range ex.Blocks {
 				if iff, ok := b.Instrs[len(b.Instrs)-1].(*ssa.If); ok && b.Dominates(sq.Block()) && b != sq.Block() {
-					if bo, ok := iff.Cond.(*ssa.BinOp); ok && bo.Op == token.LSS {
-						if _, isPhi := bo.X.(*ssa.Phi); isPhi {
+					if bo, ok := iff.Cond.(*ssa.BinOp); ok {
+						_, xPhi := bo.X.(*ssa.Phi)
+						_, yPhi := bo.Y.(*ssa.Phi)
+						if bo.Op == token.LSS && xPhi || bo.Op == token.GTR && yPhi { // i < n, or n > i
 							head = b
 						}
 					}
@@ -243,8 +245,12 @@ func runC08(c *Ctx) {
 				okShape, dShape = false, "no counting loop `i < wordBits` around the squaring"
 			} else {
 				bo := head.Instrs[len(head.Instrs)-1].(*ssa.If).Cond.(*ssa.BinOp)
-				cnt := bo.X.(*ssa.Phi)
-				lim, isC := constInt(bo.Y)
+				cntV, limV := bo.X, bo.Y
+				if bo.Op == token.GTR {
+					cntV, limV = bo.Y, bo.X
+				}
+				cnt := cntV.(*ssa.Phi)
+				lim, isC := constInt(limV)
 				init, step, okl := phiInitStepOf(c, ex, cnt)
 				self := fex.tr.term(nil, cnt, 0)
 				okCount := isC && (lim == 64 || lim == 32) && okl && init == "0" && step == "("+self+" + 1)"
